@@ -10,6 +10,7 @@ package roprometheus
 
 //@ operator IncCounterOnNext
 //@   props C19 C09
+//@   scope counter ctx destination source subscriberCtx value
 //@   constructor NewUnsafeObservableWithContext
 //@   otherwise !res(call.isPrometheusEnabled) : returns source
 //@   track counter.*
@@ -17,6 +18,7 @@ package roprometheus
 
 //@ operator IncCounterOnError
 //@   props C19 C09
+//@   scope counter ctx destination err source subscriberCtx
 //@   constructor NewUnsafeObservableWithContext
 //@   otherwise !res(call.isPrometheusEnabled) : returns source
 //@   track counter.*
@@ -25,6 +27,7 @@ package roprometheus
 
 //@ operator IncCounterOnComplete
 //@   props C19 C09
+//@   scope counter ctx destination source subscriberCtx
 //@   constructor NewUnsafeObservableWithContext
 //@   otherwise !res(call.isPrometheusEnabled) : returns source
 //@   track counter.*
@@ -33,6 +36,7 @@ package roprometheus
 
 //@ operator ObserveNextLag
 //@   props C19 C09
+//@   scope ctx destination source subscriberCtx summaryOrHistogram value
 //@   constructor NewUnsafeObservableWithContext
 //@   otherwise !res(call.isPrometheusEnabled) : returns source
 //@   track summaryOrHistogram.*
@@ -40,12 +44,14 @@ package roprometheus
 
 //@ operator observeBeforePipe
 //@   props C19 C09
+//@   scope counterOnNext ctx destination source subscriberCtx summaryOrHistogram value
 //@   constructor NewUnsafeObservableWithContext
 //@   track counterOnNext.* summaryOrHistogram.*
 //@   on next(ctx, value) : emits counterOnNext.Inc(), Next(withvalue(ctx), value), summaryOrHistogram.Observe(_)
 
 //@ operator observeOperatorProcessingTime
 //@   props C19 C09
+//@   scope ctx destination operatorIndex operatorName operatorPosition prometheusObserver source subscriberCtx summaryOrHistogram value
 //@   constructor NewUnsafeObservableWithContext
 //@   track prometheusObserver.*
 //@   on next(ctx, value) when is_int64(res(ctx.Value)) : emits prometheusObserver.Observe(_), Next(withvalue(ctx), value)
@@ -53,6 +59,7 @@ package roprometheus
 
 //@ operator observeAfterPipe
 //@   props C19 C09
+//@   scope counterOnNext counterOnSubscription ctx destination source subscriberCtx value
 //@   constructor NewUnsafeObservableWithContext
 //@   track counterOnNext.* counterOnSubscription.*
 //@   on next(ctx, value) : emits counterOnNext.Inc(), Next(ctx, value)
@@ -64,6 +71,7 @@ package roprometheus
 //@   binds subscriberCtx destination counter source
 //@   calls Inc SubscribeWithContext
 //@   params subscriberCtx destination
+//@   scope counter destination source subscriberCtx
 //@   track counter.* source.*
 //@   ensures [one-increment-then-pass-through|C19] trace(counter.Inc(), source.SubscribeWithContext(subscriberCtx, destination))
 //@   ensures [releases-the-source|C14] result == bound_Unsubscribe(res(source.SubscribeWithContext))
@@ -75,6 +83,7 @@ package roprometheus
 //@   binds instrumentedPipe stdPipe source
 //@   calls SubscribeWithContext fn:t4 isPrometheusEnabled wrapPipeWithObservability
 //@   params subscriberCtx destination
+//@   scope collector destination instrumentedPipe source stdPipe subscriberCtx
 //@   track call.isPrometheusEnabled call.wrapPipeWithObservability callfn.* p().* wrapPipeWithObservability().*
 //@   ensures [licence-checked-per-subscription|C19] count(call.isPrometheusEnabled) == 1
 //@   ensures [licensed-subscribes-the-instrumented-composition|C19] res(call.isPrometheusEnabled) == true ==> called(call.wrapPipeWithObservability) && arg(call.wrapPipeWithObservability, 1) == instrumentedPipe
